@@ -601,6 +601,8 @@ func serverListener_unix(unixSocketCfg UnixSocketConfig) (net.Listener, error) {
 	if unixSocketCfg.Group != "" {
 		err = setGroupWritable(path, unixSocketCfg.Group, 0o660)
 		if err != nil {
+			// Don't leave the listener and its socket file behind.
+			l.Close()
 			return nil, err
 		}
 	}
